@@ -11,6 +11,7 @@ import (
 	"context"
 	"encoding/json"
 	"fmt"
+	"io"
 	"os"
 	"strconv"
 	"strings"
@@ -22,6 +23,7 @@ import (
 	"github.com/taskctl/taskctl/pkg/task"
 
 	"github.com/Flowpack/prunner/definition"
+	"github.com/Flowpack/prunner/store"
 	"github.com/Flowpack/prunner/taskctl"
 )
 
@@ -60,6 +62,7 @@ type nJob struct {
 	cancelAll bool // every in-flight task may react to the cancel
 	tasksSeen map[string][]string
 	envSeen   map[string]string
+	removed   bool // a save removed it from what the API reports
 }
 
 type nWorld struct {
@@ -127,6 +130,9 @@ func (m *nRunner) Run(t *task.Task) error {
 		if nj.replaced {
 			w.violate("C07.replaced-job-never-starts", nj.name+" runs although it was replaced")
 		}
+		if nj.removed {
+			w.violate("C15.a-job-that-is-no-longer-reported-never-starts", nj.name+" runs although a save removed it from the job list")
+		}
 		if nj.delay > 0 && now.Sub(nj.accepted) < nj.delay {
 			w.violate("C07.start-not-before-delay", fmt.Sprintf("%s started %s after acceptance, delay %s", nj.name, now.Sub(nj.accepted), nj.delay))
 		}
@@ -154,7 +160,11 @@ func (m *nRunner) Run(t *task.Task) error {
 			continue
 		}
 		done := false
-		_ = w.r.ReadJob(o.id, func(j *PipelineJob) { done = j.Completed })
+		if o.removed {
+			done = o.inflight == 0 && o != nj // not reported any more: it executes while a task of it is in flight
+		} else {
+			_ = w.r.ReadJob(o.id, func(j *PipelineJob) { done = j.Completed })
+		}
 		if !done {
 			executing++
 		}
@@ -301,7 +311,9 @@ func (w *nWorld) counts() (running, waiting int, newestWaiting *nJob) {
 		w.mu.Lock()
 		inflight := nj.inflight
 		w.mu.Unlock()
+		found := false
 		_ = w.r.ReadJob(nj.id, func(j *PipelineJob) {
+			found = true
 			// a job executes while it is reported as started-and-unfinished, and in any case while one of
 			// its tasks is in flight in the task runner (observed by the mock)
 			if (j.Start != nil && !j.Completed && !j.Canceled) || inflight > 0 {
@@ -312,6 +324,9 @@ func (w *nWorld) counts() (running, waiting int, newestWaiting *nJob) {
 				newestWaiting = nj
 			}
 		})
+		if !found && inflight > 0 {
+			running++ // no longer reported, but one of its tasks is executing
+		}
 	}
 	return
 }
@@ -659,10 +674,27 @@ func (w *nWorld) settle() {
 	}
 	n := 0
 	w.r.IterateJobs(func(j *PipelineJob) { n++ })
-	if n != len(w.jobs) {
-		w.violate("C15.job-list-complete", fmt.Sprintf("%d jobs accepted, %d listed", len(w.jobs), n))
+	reported := 0
+	for _, nj := range w.jobs {
+		if !nj.removed {
+			reported++
+		}
+	}
+	if n != reported {
+		w.violate("C15.job-list-complete", fmt.Sprintf("%d jobs accepted and not removed, %d listed", reported, n))
 	}
 }
+
+type nNullStore struct{}
+
+func (nNullStore) Load() (*store.PersistedData, error) { return &store.PersistedData{}, nil }
+func (nNullStore) Save(d *store.PersistedData) error   { return nil }
+
+type nNullOutput struct{}
+
+func (nNullOutput) Writer(a, b, c string) (io.WriteCloser, error) { return nil, nil }
+func (nNullOutput) Reader(a, b, c string) (io.ReadCloser, error) { return nil, nil }
+func (nNullOutput) Remove(id string) error                       { return nil }
 
 func TestVerifReplayBMC(t *testing.T) {
 	path := os.Getenv("VERIF_REPLAY")
@@ -743,6 +775,26 @@ func TestVerifReplayBMC(t *testing.T) {
 			}
 		case "CGO":
 			time.Sleep(60 * time.Millisecond)
+		case "UNDEF":
+			w.reloads++
+			w.r.ReplaceDefinitions(&definition.PipelinesDef{Pipelines: map[string]definition.PipelineDef{}})
+		case "REDEF":
+			w.r.ReplaceDefinitions(w.defs)
+		case "SAVE":
+			if w.r.store == nil {
+				w.r.store = &nNullStore{}
+				w.r.outputStore = &nNullOutput{}
+			}
+			w.r.SaveToStore()
+			for _, nj := range w.jobs {
+				found := false
+				_ = w.r.ReadJob(nj.id, func(j *PipelineJob) { found = true })
+				if !found {
+					w.mu.Lock()
+					nj.removed = true
+					w.mu.Unlock()
+				}
+			}
 		case "RELOAD":
 			w.reloads++
 			w.defGen++
